@@ -16,7 +16,7 @@ PROP = dict(
     engines=[dict(
         name="eager", classify=classify,
         quick=dict(cases=4320, shards=4, profiles=["debug", "release"]),
-        thorough=dict(cases=288000, shards=16, profiles=["debug", "release"]),
+        thorough=dict(cases=64000, shards=16, profiles=["debug", "release"]),
     )],
     rule="inputs: the 42 modelled integer compute_* methods in rotation (F1-F7), raw (BytesVec) and compressed (PcoVec) outputs and "
          "sources, 2-7 rounds per history of: truncate sources (35%), grow sources (85%), change a source version (12%), "
